@@ -141,6 +141,13 @@ def run():
                 prqlc_text[(d, i)] = sql[len(pre):-len(suf)]
             else:
                 ck.violation("string literal %r does not compile to SELECT <literal> AS v FROM t for %s" % (s, d), {"kind": "emit-shape", "value": s, "dialect": d, "src": src, "answer": a})
+    # first of all, the semantic question on prqlc's REAL text wherever it is not the expected one (never on the unchanged tree):
+    # does the dialect's own tokenizer still read the value back?  (reported before the textual differences)
+    odd = [(d, i) for (d, i) in sorted(prqlc_text) if prqlc_text[(d, i)] != emitted[writer_bs[d]][i]]
+    for (d, i), a in zip(odd, harness("c08_tok", [{"sql": prqlc_text[k_], "dialect": k_[0]} for k_ in odd])):
+        if canon_tok(a) != [(1, strings[i])]:
+            ck.disagreement("sqlparser %s tokenizer does not read %r back from the literal prqlc emits, %r" % (d, strings[i], prqlc_text[(d, i)]),
+                            {"kind": "tok-roundtrip-real", "value": strings[i], "dialect": d, "text": prqlc_text[(d, i)], "tokens": canon_tok(a)}, cl_string)
     # sqlparser's tokenizer of each dialect reads the text that dialect gets
     tok_by = {}
     for d in ALL_DIALECTS:
@@ -235,6 +242,9 @@ def run():
     nums = sp.number_cases(ck.rng, ck.n(40, 400), rows)
     for src, exp in nums:
         lits.append((src, exp, "number"))
+    # based integer literals around the digit caps / the i64 boundary / with separators: may be rejected, must never be another value
+    for src, v in sp.based_boundary(ck.rng, ck.n(6, 40)):
+        lits.append((src, ("intq", v), "number:boundary"))
     for src in sp.EXTREME:
         lits.append((src, ("real", Fraction(src.replace("_", "")) if "e" not in src else Fraction(int(src.split("e")[0])) * Fraction(10) ** min(int(src.split("e")[1]), 3000)), "number:extreme"))
     dates = sp.date_cases(ck.rng, ck.n(40, 300))
@@ -286,7 +296,16 @@ def run():
                 ok = iv[0] == "Float" and ((iv[1] is None and inf_spelling(exp)) or (iv[1] is not None and not inf_spelling(exp) and Fraction(iv[1]) == Fraction(float(exp))))
                 if not ok:
                     ck.violation("number spelling %r should be the float %s, lexes to %r" % (src, exp, iv), case)
-        if iv is None and pv is not None:
+        if kind == "number:boundary":
+            if iv is None:
+                ck.stat("literal-decode", "boundary-rejected")
+            else:
+                v = pv[1]
+                ok = (iv == ("Integer", v)) if v < 2**63 else (iv[0] == "Float" and iv[1] is not None and Fraction(iv[1]) == Fraction(float(v)))
+                ck.stat("literal-decode", "boundary-accepted")
+                if not ok:
+                    ck.violation("based integer literal %s denotes %d but lexes to %r" % (src, v, iv), case)
+        elif iv is None and pv is not None:
             ck.violation("literal spelling %r is not lexed as one literal token" % src, case)
         # Coq model vs implementation
         if model_lit is not None:
@@ -325,6 +344,8 @@ def run():
                 progs.append(("from u | filter c == %s | select {v = c}" % src, "sql.sqlite", ("text", value), {"lit": src, "kind": kind, "value": value, "skeleton": "filter"}))
             if src.startswith("f") and i % 2 == 0:
                 progs.append(("from t | select {v = f\"%s{c}%s\"}" % (src[2:-1], src[2:-1]), "sql.sqlite", ("text", value + "cval" + value), {"lit": src, "kind": kind, "value": value, "skeleton": "fhole"}))
+        elif kind == "number:boundary":
+            progs.append(("from t | select {v = %s}" % src, "sql.sqlite", ("intq", pv[1]), {"lit": src, "kind": kind, "skeleton": "select"}))
         elif kind.startswith("number"):
             tag, exp = pv
             for tgt in ("sql.sqlite", "sql.generic"):
@@ -356,6 +377,9 @@ def run():
         ck.count("e2e-sqlite", src + "|" + tgt)
         ck.stat("e2e-sqlite", meta["kind"].split(":")[0] + "/" + meta["skeleton"])
         case = dict(meta, src=src, target=tgt, expected=(">= 2^1024" if meta.get("overflow") else str(exp)))
+        if "ok" not in a and etag == "intq":
+            ck.stat("e2e-sqlite", "boundary-rejected")            # too many digits / separators: a compile error is acceptable
+            continue
         if "ok" not in a:
             case["compile"] = a
             ck.disagreement("literal program does not compile: %s" % src, case, cl_e2e)
@@ -374,6 +398,9 @@ def run():
         ok = False
         if etag == "text":
             ok = got == exp
+        elif etag == "intq":
+            ok = (isinstance(got, int) and not isinstance(got, bool) and got == exp) if exp < 2**63 else \
+                 (isinstance(got, dict) and "f" in got and got["f"] not in ("inf", "NaN") and float(got["f"]) == float(exp))
         elif etag in ("int", "bool"):
             ok = isinstance(got, int) and not isinstance(got, bool) and got == exp
         elif etag == "real":
